@@ -34,6 +34,9 @@ var c08bases = []string{"os", "mem", "mount", "mount-os"}
 
 var c08targets = []string{"f", "d", "e", "new", "nope/new", "f/x", ".", "d/x", "d/sub/deeper", "ln", "../f", "d/../f", ""}
 
+// c08mkdirPerms: permission arguments for Mkdir/MkdirAll (variant 0 first), incl. ones without owner write/execute
+var c08mkdirPerms = []uint32{0o750, 0o555, 0o500, 0, 0o777}
+
 // c08openFlags: flag sets for the OpenFile helper (variant 0 is the first)
 var c08openFlags = []int{os.O_RDWR | os.O_CREATE, os.O_RDONLY, os.O_RDONLY | os.O_TRUNC, os.O_WRONLY | os.O_APPEND, os.O_RDWR | os.O_CREATE | os.O_EXCL, os.O_RDONLY | os.O_APPEND, os.O_WRONLY | os.O_TRUNC}
 
@@ -59,7 +62,19 @@ func c08step(helper, target string, variant ...int) fsx.Step {
 		}
 	case "Mkdir", "MkdirAll":
 		st.Perm = 0o750
+		if len(variant) > 0 {
+			st.Perm = c08mkdirPerms[variant[0]%len(c08mkdirPerms)]
+		}
+	case "WriteFullFile":
+		if len(variant) > 0 && variant[0] > 0 {
+			st.Data = []string{"", "p", ""}[variant[0]%3] // shorter than what the existing targets hold, and empty
+		}
 	case "Rename", "Symlink":
+		if helper == "Rename" && len(variant) > 0 && variant[0] > 0 {
+			// through a Sub view of "d": d/x -> d/x-renamed (or a missing source)
+			st.K, st.P, st.P2 = "SubRename", "d", []string{"x", "x", "missing"}[variant[0]%3]
+			return st
+		}
 		st.P, st.P2 = "f", target
 		if target == "f" {
 			st.P, st.P2 = "d", "renamed"
@@ -135,6 +150,21 @@ func c08build() {
 							}
 							if h == "OpenFile" && ai < 3 { // targets f, d, e
 								for v := 1; v < len(c08openFlags); v++ {
+									c08list = append(c08list, c08case{Base: base, Helper: h, Off: off, FileOff: fo, ArgIndex: ai, Variant: v})
+								}
+							}
+							if (h == "Mkdir" || h == "MkdirAll") && (c08targets[ai] == "new" || c08targets[ai] == "d/sub/deeper" || c08targets[ai] == "nope/new") {
+								for v := 1; v < len(c08mkdirPerms); v++ {
+									c08list = append(c08list, c08case{Base: base, Helper: h, Off: off, FileOff: fo, ArgIndex: ai, Variant: v})
+								}
+							}
+							if h == "WriteFullFile" && ai < 4 {
+								for v := 1; v <= 2; v++ {
+									c08list = append(c08list, c08case{Base: base, Helper: h, Off: off, FileOff: fo, ArgIndex: ai, Variant: v})
+								}
+							}
+							if h == "Rename" && ai == 0 {
+								for v := 1; v <= 2; v++ {
 									c08list = append(c08list, c08case{Base: base, Helper: h, Off: off, FileOff: fo, ArgIndex: ai, Variant: v})
 								}
 							}
@@ -426,7 +456,7 @@ func c08run(env *core.Env, idx int) core.CaseResult {
 	var faultRuns []faultRun
 	for k := range mcalls {
 		faultRuns = append(faultRuns, faultRun{k, false})
-		if mcalls[k] == "file.ReadDir" || mcalls[k] == "file.Read" || mcalls[k] == "file.Write" {
+		if mcalls[k] == "file.ReadDir" || mcalls[k] == "file.Read" || mcalls[k] == "file.Write" || mcalls[k] == "Rename" {
 			faultRuns = append(faultRuns, faultRun{k, true}) // also failing part-way: part of the result plus the error
 		}
 	}
